@@ -49,8 +49,10 @@ def tokenize(text):
         blank = q.startswith(' ')
         murky = False
         if blank:
-            q2 = q.lstrip(' ')
-            if q2[:1] in ('\r', '\n', '\t', '\v', '\f') or (q2 == '' ):
+            # the two documented normalisations compose: blanks and line breaks in front of a segment are dropped in
+            # whatever order they come (fixed-width records: '~   CRLF GS...'); the blank is reported
+            q2 = q.lstrip(' \r\n')
+            if q2[:1] in ('\t', '\v', '\f') or (q2 == ''):
                 murky = True
             q = q2
         if q == '':
